@@ -554,9 +554,9 @@ pub fn run(tier: Tier, seed: u64, only: Option<String>) -> i32 {
         "same_results_as_alone",
     ];
     let cells = all_cells(false);
-    let n_single = cells.len() * tier.pick(2, 20);
-    let n_multi = tier.pick(24, 400);
-    let n_stale = cells.len() * tier.pick(1, 10);
+    let n_single = cells.len() * tier.pick(12, 40);
+    let n_multi = tier.pick(200, 1200);
+    let n_stale = cells.len() * tier.pick(6, 20);
     match only {
         Some(s) if s.starts_with('s') => {
             let o = run_stale(seed, s[1..].parse().unwrap_or(0), &cells, tier);
